@@ -16,11 +16,11 @@ not found or when the two routes of (b) disagree.
 """
 import os, re, subprocess, sys
 
-REPO = "/repo"
+REPO = os.environ.get("C20_REPO", "/repo")          # override only for what-if runs on a scratch worktree
 CORE = os.path.join(REPO, "src/core/src")
 HDR = os.path.join(REPO, "include/sourmash.h")
 ROOT = os.path.dirname(os.path.dirname(os.path.abspath(__file__)))
-OUT = os.path.join(ROOT, "lean/Sourmash/Generated/C20.lean")
+OUT = os.environ.get("C20_OUT", os.path.join(ROOT, "lean/Sourmash/Generated/C20.lean"))
 BIN = os.path.join(ROOT, ".cache/target/debug/c20")
 
 
